@@ -55,7 +55,13 @@ STR = r'"((?:\\.|[^"\\])*)"'
 
 def func_body(src, name):
     """Text of the body of function `name` (comments stripped), or None."""
-    m = re.search(r"\b" + re.escape(name) + r"\s*\([^;{]*\)\s*\{", src)
+    m = None
+    for c in re.finditer(r"\b" + re.escape(name) + r"\s*\([^;{]*\)\s*\{", src):
+        # a definition header: the name follows a type (identifier or '*'), not '(' , '!' , '=' ... as in `if (name(x)) {`
+        pre = src[:c.start()].rstrip()
+        if pre and (pre[-1].isalnum() or pre[-1] in "_*") and not re.search(r"\b(return|else|do|case|goto)$", pre):
+            m = c
+            break
     if not m:
         return None
     i = m.end()
